@@ -258,6 +258,7 @@ class RpcNet(Engine):
         ncalls = rng.choice([1, 2, 3, 5, 8, 12, 20, 30])
         t = 0.0
         focus = None
+        last_tx = None
         if rng.random() < 0.25:
             focus = [rng.choice(self.METHODS) for _ in range(rng.randint(1, 3))]
         for _ in range(ncalls):
@@ -268,6 +269,21 @@ class RpcNet(Engine):
                  'style': rng.choice(['fixed8', 'trim', 'trim1', 'exp', 'expl', 'pad']) if style == 'mixed' else style,
                  'tx': self.gen_simple_tx(rng) if m in ('fundrawtransaction', 'sendrawtransaction', 'signrawtransaction', 'signrawtransactionwithwallet') else None,
                  'addr': self.gen_addr(rng), 'server': {'behave': 'ok'}, 'net': {'kind': 'none'}, 'after_fail': rng.choice(['reconnect', 'reconnect', 'none'])}
+            if a['tx'] is not None:
+                # wallets send the same transaction again - unchanged, or re-signed: same inputs and
+                # outputs (same txid), other witness data, hence other bytes on the wire
+                if last_tx is not None and rng.random() < 0.4:
+                    a['tx'] = copy.deepcopy(last_tx)
+                    how = rng.choice(['same', 'witness-changed', 'witness-changed', 'witness-dropped', 'witness-added'])
+                    nin = len(a['tx']['vin'])
+                    if how == 'witness-changed':
+                        a['tx']['wit'] = [[gen.rhex(rng, rng.randint(1, 72))] + ([gen.rhex(rng, 33)] if rng.random() < 0.5 else []) for _ in range(nin)]
+                    elif how == 'witness-dropped':
+                        a['tx']['wit'] = None
+                    elif how == 'witness-added' and not a['tx'].get('wit'):
+                        a['tx']['wit'] = [[gen.rhex(rng, 71), gen.rhex(rng, 33)]] + [[] for _ in range(nin - 1)]
+                    a['resend'] = how
+                last_tx = a['tx']
             if srv_on and rng.random() < 0.25:
                 a['server'] = self.gen_server_fault(rng)
             if faults_on and rng.random() < 0.2:
